@@ -13,7 +13,8 @@ H2C = "py_ecc.bls.hash_to_curve"
 
 
 def xor_summary(it, f, args, kwargs, node):
-    return Term("xor", (args[0], args[1]), "bytes")
+    from ..term import t_xor
+    return t_xor(args[0], args[1])
 
 
 def run(chk, repo, tier):
@@ -39,6 +40,11 @@ def run(chk, repo, tier):
     xr = it.call_func(xorf, [a, b], {})
     ok = (isinstance(xr, Term) and xr.op == "bytes_of" and isinstance(xr.args[0], Term) and xr.args[0].op == "symseq"
           and xr.args[0].args[1] is Term("xor", (Term("elem", (a,), "int"), Term("elem", (b,), "int")), "int"))
+    if not ok and isinstance(xr, Term) and xr.op == "i2osp":
+        # integer form: I2OSP(OS2IP(a) xor OS2IP(b), len(a)) — the same function on equal-length strings (the only use)
+        body, n = xr.args
+        ints = {Term("os2ip", (a,), "int"), Term("os2ip", (b,), "int")}
+        ok = (isinstance(body, Term) and body.op == "xor" and set(body.args) == ints and (n is t_len(a) or n is t_len(b)))
     chk.ob("C15.R1", xorf.qualname, "bytes(x ^ y for x, y in zip(a, b))", ok, f"got {show(xr)[:300]}", xorf.where)
     # ---- concrete hash functions x boundary lengths (msg, DST symbolic): catches any confusion of block and
     #      digest size however the block count is written
